@@ -366,6 +366,10 @@ func machineBody(depth int, alphabet []int, stateVariant bool) func() {
 					bad("C14.backoff-reset", "the routine returned nil but the back-off was not reset")
 					return
 				}
+				if expExit != 0 && dReset != 0 {
+					bad("C14.backoff-reset", "the back-off was reset %d time(s) in a step in which no instance returned nil (it is reset by a success, not by a retry or a restart: otherwise it never grows)", dReset)
+					return
+				}
 				if expExit == 1 && dNext != 1 {
 					bad("C14.backoff-next", "the routine returned an error: NextBackOff called %d times, want 1", dNext)
 					return
